@@ -53,6 +53,12 @@ def render_source(node):
             plain.append(t)
             styles.extend([current] * len(t))
             return
+        if "escaped_lt" in n:
+            # an escaped opening bracket that is not part of a tag: the backslash is dropped
+            src.append("\\" + LT)
+            plain.append(LT)
+            styles.append(current)
+            return
         if "escaped_tag" in n:
             # a registered tag written with pastel's escape character: rendered as the literal tag text
             t = n["escaped_tag"]
@@ -86,7 +92,7 @@ def depth(nodes):
 
 def has_literal(nodes):
     for n in nodes:
-        if "literal_tag" in n or "escaped_tag" in n:
+        if "literal_tag" in n or "escaped_tag" in n or "escaped_lt" in n:
             return True
         if "text" in n and (LT in n["text"] or GT in n["text"]):
             return True
@@ -169,6 +175,6 @@ def nodes_st(max_depth=4):
             "children": st.lists(children, max_size=3),
         })
 
-    base = st.one_of(leaf_st(), leaf_st(), literal_st(), escaped_st())
+    base = st.one_of(leaf_st(), leaf_st(), leaf_st(), literal_st(), escaped_st(), st.just({"escaped_lt": True}))
     tree = st.recursive(base, lambda ch: st.one_of(leaf_st(), style_node(ch)), max_leaves=10)
     return st.lists(tree, min_size=1, max_size=4).filter(source_is_unambiguous)
